@@ -70,7 +70,21 @@ Definition kinds : list kind := [
   mk "slow_interval" 400 json_ct "{""error"":""slow_down"",""interval"":5}" RSlowDown ROtherErr;
   mk "slow_interval0" 400 json_ct "{""interval"":0,""error_description"":""x"",""error"":""slow_down""}" RSlowDown ROtherErr;
   mk "slow_retry" 429 json_ct "{""error"":""slow_down"",""retry_after"":1,""Retry-After"":""0"",""interval"":3600}" RSlowDown ROtherErr;
-  mk "pending_interval" 400 json_ct "{""error"":""authorization_pending"",""interval"":1,""expires_in"":1}" RPending ROtherErr
+  mk "pending_interval" 400 json_ct "{""error"":""authorization_pending"",""interval"":1,""expires_in"":1}" RPending ROtherErr;
+  (* the remaining RFC 6749 section 5.2 codes: each ends the session with that error, whatever the client's credentials or
+     authentication type are (no second request, no other request) *)
+  mk "invalid_client" 401 json_ct "{""error"":""invalid_client""}"
+     (RDecisive 30) (RServer (s2b "invalid_client") None);
+  mk "invalid_client400" 400 json_ct "{""error"":""invalid_client"",""error_description"":""bad credentials""}"
+     (RDecisive 31) (RServer (s2b "invalid_client") (Some (s2b "bad credentials")));
+  mk "invalid_request" 400 json_ct "{""error"":""invalid_request""}"
+     (RDecisive 32) (RServer (s2b "invalid_request") None);
+  mk "invalid_scope" 400 json_ct "{""error"":""invalid_scope""}"
+     (RDecisive 33) (RServer (s2b "invalid_scope") None);
+  mk "unauthorized_client" 403 json_ct "{""error"":""unauthorized_client""}"
+     (RDecisive 34) (RServer (s2b "unauthorized_client") None);
+  mk "unsupported_grant_type" 400 None "{""error"":""unsupported_grant_type""}"
+     (RDecisive 35) (RServer (s2b "unsupported_grant_type") None)
 ].
 
 Fixpoint find_kind (name : bytes) (l : list kind) : option kind :=
